@@ -17,7 +17,7 @@ type c22Ev struct {
 	Kind string `json:"k"` // "press" "release" "write" "read" (JOYP is only read, and judged, by read events: a read
 	// may itself change hidden state of the implementation — e.g. refresh a cache — so observing after every
 	// event would hide what is pending between two reads)
-	Arg  int    `json:"a"` // button index (ref order) or value
+	Arg int `json:"a"` // button index (ref order) or value
 }
 
 var c22Buttons = [8]controller.Button{controller.Right, controller.Left, controller.Up, controller.Down,
@@ -80,10 +80,57 @@ func (n *c22Node) Key() string {
 	return fmt.Sprintf("%d|%s|%02x%x%x", n.st, explore.DeepKey(*n.m.C, 64), n.mod.Sel, n.mod.Dirs, n.mod.Btns)
 }
 
+// c22Burst: n press/release events with no JOYP access in between (key events come from the window system, outside
+// the machine's timeline, so any number may arrive between two reads), then one read per select value.
+type c22Burst struct {
+	Pattern  int  `json:"pattern"` // 0 round-robin presses; 1 press/release pairs walking over the buttons; 2 press all 8, release all 8; 3 one button toggled
+	N        int  `json:"n"`
+	Sel      int  `json:"sel"`
+	SelFirst bool `json:"sel_first"` // the select write precedes the burst
+}
+
+func c22BurstEv(pattern, i int) (btn int, press bool) {
+	switch pattern {
+	case 0:
+		return i % 8, true
+	case 1:
+		return (i / 2) % 8, i%2 == 0
+	case 2:
+		return i % 8, (i/8)%2 == 0
+	}
+	return 5, i%2 == 0
+}
+
+func c22BurstCheck(l *explore.Local, _ struct{}, c c22Burst) *explore.Fail {
+	n := &c22Node{m: machine.New(machine.ROMOnly(), machine.Opts{}), mod: ref.NewJoypad()}
+	if c.SelFirst {
+		n.Apply(c22Ev{"write", c.Sel})
+	}
+	for i := 0; i < c.N; i++ {
+		b, p := c22BurstEv(c.Pattern, i)
+		k := "release"
+		if p {
+			k = "press"
+		}
+		n.Apply(c22Ev{k, b})
+		l.Trans(1)
+	}
+	if !c.SelFirst {
+		n.Apply(c22Ev{"write", c.Sel})
+	}
+	if f := n.Apply(c22Ev{"read", 0}); f != nil {
+		f.Msg = fmt.Sprintf("after a burst of %d key events without a JOYP access: %s", c.N, f.Msg)
+		return f
+	}
+	l.Eval(1)
+	l.Outcome(uint64(n.m.Map.Read(0xff00)) | uint64(n.mod.Dirs)<<8 | uint64(n.mod.Btns)<<12)
+	return nil
+}
+
 func init() {
 	register("C22", "model_checking", func(c *Ctx) {
 		if c.R != nil {
-			c.R.Rule = "breadth-first closure of the real Controller (via Mapper FF00 and ButtonAction) paired with the reference joypad; a state is (controller fields, model fields); JOYP is read and compared with the model by an explicit read event from every reached state (so any number of presses, releases and writes may lie between two reads); non-trivial = distinct (state,event) successor keys"
+			c.R.Rule = "breadth-first closure of the real Controller (via Mapper FF00 and ButtonAction) paired with the reference joypad; a state is (controller fields, model fields); JOYP is read and compared with the model by an explicit read event from every reached state (so any number of presses, releases and writes may lie between two reads); non-trivial = distinct (state,event) successor keys; plus bursts of up to 260 key events with no JOYP access in between (the closure merges states, so it cannot tell how many events arrived since the last read)"
 			c.R.Assumptions = []string{"JOYP interrupt requests are not part of the statement", "key = every field of the real Controller struct, rendered by reflection (so a field added later is part of the key), + model fields"}
 		}
 		var evs []c22Ev
@@ -94,6 +141,20 @@ func init() {
 			evs = append(evs, c22Ev{"write", v})
 		}
 		evs = append(evs, c22Ev{"read", 0})
+		explore.Product(c.R, "event-bursts", explore.PartOpt{Bound: "bursts of 1..260 key events between two JOYP accesses", Domain: "4 event patterns x select values {10,20,00,30} written before or after the burst"},
+			func(yield func(c22Burst) bool) {
+				for pat := 0; pat < 4; pat++ {
+					for n := 1; n <= 260; n++ {
+						for _, sel := range []int{0x10, 0x20, 0x00, 0x30} {
+							for _, first := range []bool{false, true} {
+								if !yield(c22Burst{pat, n, sel, first}) {
+									return
+								}
+							}
+						}
+					}
+				}
+			}, func() struct{} { return struct{}{} }, c22BurstCheck)
 		explore.BFS(c.R, explore.BFSSpec[int, c22Ev, *c22Node]{
 			Name:   "joypad-closure",
 			Starts: []int{0, 1, 2},
